@@ -13,7 +13,7 @@ from Pyro5.server import expose
 from pysym.runner import Spec
 from pysym.api import And, Or, Not, Implies, eq
 from pysym import env
-from harness import rig
+from harness import rig, codecs
 
 LOG = []
 
@@ -21,6 +21,27 @@ LOG = []
 @expose
 class K:
     def __init__(self, name):
+        self.name = name
+
+    def who(self):
+        LOG.append(self.name)
+        return self.name
+
+
+@expose
+class KEmpty(K):
+    """a registered container-like object that happens to be empty: falsy, but alive"""
+
+    def __len__(self):
+        return 0
+
+
+@expose
+class KSet(set):
+    """an exposed class derived from a builtin container type"""
+
+    def __init__(self, name):
+        set.__init__(self)
         self.name = name
 
     def who(self):
@@ -58,7 +79,7 @@ def h_registry_step(S, B):
     del LOG[:]
     daemon = rig.make_daemon()
     dobj = daemon.objectsById[core.DAEMON_NAME]
-    O1, O2, O3 = K("O1"), K("O2"), K("O3")
+    O1, O2, O3 = KEmpty("O1"), KSet("O2"), K("O3")
     pool = {"O1": O1, "O2": O2, "O3": O3, "KC": KC}
     st1 = S.choice("O1.state", ["unregistered", "strong", "weak"])
     st2 = S.choice("O2.state", ["unregistered", "strong"])
@@ -187,6 +208,17 @@ def h_registry_step(S, B):
                 S.check("proxy-names-an-id-of-the-object", Or(*[eq(out._pyroUri.object, i) for i in ids]))
             S.check("auto-proxy-hook-installed-for-the-type",
                     serializers.JsonSerializer._JsonSerializer__type_replacements.get(type(obj)) is server._pyro_obj_to_auto_proxy)
+            # through the serializers that support auto-proxying by a `default` hook: what arrives is a proxy for the id
+            for sname in ("json", "msgpack"):
+                ser = serializers.serializers[sname]
+                arrived = None
+                try:
+                    arrived = ser.loads(ser.dumps(obj))
+                except Exception as x:
+                    arrived = x
+                S.check("registered-object-arrives-as-proxy-through-the-serializer", isinstance(arrived, client.Proxy))
+                if isinstance(arrived, client.Proxy):
+                    S.check("arrived-proxy-names-an-id-of-the-object", Or(*[eq(arrived._pyroUri.object, i) for i in ids]))
         else:
             S.check("unregistered-object-travels-by-value", oexc is None and out is obj)
     S.observe("reported", len(reported))
@@ -202,8 +234,9 @@ def _reset():
             delattr(KC, a)
 
 
-INTERPRET_MODULES = ["harness.rig"]
-STUBS = [st for st in rig.STUBS if st[1] in ("uuid4", "UUID", "format_traceback")]
+INTERPRET_MODULES = ["harness.rig", "harness.codecs"]
+STUBS = [st for st in rig.STUBS if st[1] in ("uuid4", "UUID", "format_traceback")] + \
+    [st for st in codecs.stubs() if st[0].__name__ in ("json", "msgpack")]
 
 SPECS = [
     Spec("registry_step", h_registry_step, {"quick": {"L": 2, "L2": 11}, "thorough": {"L": 3, "L2": 12}},
